@@ -22,7 +22,7 @@ site('expr.c', 'builtinfunc', 'error', '__builtin_nanf currently only supports e
      X('__builtin_nanf("x")', gcc=W_BUILTIN), X('__builtin_nanf(h_v)', gcc=W_BUILTIN))
 site('expr.c', 'builtinfunc', 'error', 'expected type name',
      X('__builtin_types_compatible_p(int, 3)'), X('__builtin_types_compatible_p(int, h_v)'),
-     X('__builtin_va_arg(ap_, 3)'), n=2)
+     X('__builtin_va_arg(ap_, 3)'), X('__builtin_offsetof(, a)', note='regression (fixed d3eab84): null type dereferenced'), X('__builtin_offsetof(3, a)'), n=3)
 site('expr.c', 'builtinfunc', 'error', "struct/union has no member named '%s'",
      X('__builtin_offsetof(struct s_, zz_)', "'zz_'"), X('__builtin_offsetof(union un_, zz_)', "'zz_'"))
 site('expr.c', 'builtinfunc', 'error', 'type is not a struct/union type',
@@ -45,6 +45,8 @@ site('expr.c', 'castexpr', 'error', 'cast type must be scalar',
      X('(struct s_)h_v'), X('(union un_)h_v', gcc=True), X('(int[3])h_v'), X('(int(void))h_v'))
 site('expr.c', 'castexpr', 'expect', "TRPAREN after expression to match '('", X('(h_v 1)'), X('(h_v + 1 ; h_v'))
 site('expr.c', 'castexpr', 'expect', 'TRPAREN after type name', X('(int 3)h_v'), X('(struct s_ * 1){0}'))
+site('expr.c', 'condexpr', 'error', 'first operand of conditional expression must have scalar type',
+     X('sv_ ? 1 : 2', note='regression (fixed 74d429b): assertion failure in funcjnz'), X('uv_ ? h_v : 0'), X('sv_.in_ ? sv_ : sv_'))
 site('expr.c', 'condexpr', 'error', 'invalid operands to conditional operator',
      X('h_v ? sv_ : 1'), X('h_v ? ip_ : 1.5'), X('h_v ? sv_ : tv_'), X('h_v ? (void)0 : 1'))
 site('expr.c', 'condexpr', 'error', 'operands of conditional operator must have compatible types',
